@@ -418,7 +418,7 @@ func runIDToken(args []string) error {
 					p2.set(d2, v2)
 					points = append(points, p2)
 					if *tier == "thorough" {
-						for _, d3 := range []string{"sig", "keys", "aud", "exp", "acrcfg", "sidreq", "jwks"} {
+						for _, d3 := range []string{"sig", "aud", "jwks"} { // (every point is a full login + callback through the real handlers)
 							if d3 == d1 || d3 == d2 {
 								continue
 							}
